@@ -114,6 +114,7 @@ struct GenOpts {
     int max_enum = 12;
     bool long_names = false;
     bool unique_names = false;
+    double p_slash_leaf = 0;      // leaf ports whose name ends in '/' although they have no sub-table (C18)
 };
 
 static inline std::string gen_name(Rng &r, const GenOpts &o)
@@ -140,6 +141,7 @@ static inline Table *gen_table(Tree &t, Rng &r, const GenOpts &o, int depth)
         std::unique_ptr<PortDesc> pd(new PortDesc);
         pd->id = t.next_id++;
         pd->owner = tb;
+        bool slash_leaf = false;
         if(i > 0 && r.chance(o.p_dup)) pd->name = tb->ports[r.below(tb->ports.size())]->name;
         else {
             pd->name = gen_name(r, o);
@@ -156,14 +158,14 @@ static inline Table *gen_table(Tree &t, Rng &r, const GenOpts &o, int depth)
                     if(r.chance(0.5)) pd->name += "#" + std::to_string((int)r.range(1, 3));
                 }
                 pd->name += "/";
-            }
+            } else if(r.chance(o.p_slash_leaf)) { pd->name += "/"; slash_leaf = true; }
         }
         if(o.unique_names) {
             bool clash = false;
             for(auto &q : tb->ports) { std::string a = q->name.substr(0, q->name.find_first_of("#/")), b = pd->name.substr(0, pd->name.find_first_of("#/")); if(a == b) clash = true; }   // same stem: overlapping addresses
             if(clash) { if(!r.chance(0.2)) --i; continue; }   // retry the slot (or give it up)
         }
-        bool is_sub = !pd->name.empty() && pd->name.back() == '/';
+        bool is_sub = !pd->name.empty() && pd->name.back() == '/' && !slash_leaf;
         if(is_sub) pd->sub = gen_table(t, r, o, depth + 1);
         else if(r.chance(o.p_spec)) pd->spec = SPECS[r.below(7)];
         pd->full = pd->name + pd->spec;
